@@ -7,6 +7,7 @@ import (
 	"encoding/binary"
 	"fmt"
 	"os"
+	"regexp"
 	"strings"
 	"time"
 	"unicode/utf8"
@@ -15,6 +16,8 @@ import (
 	"github.com/linuxboot/fiano/pkg/unicode"
 	"github.com/linuxboot/fiano/pkg/visitors"
 	. "verifharness/common"
+	"verifharness/uefigen"
+	"verifharness/uefiops"
 )
 
 // ---------- observations (must match ocaml/c10/run.ml byte for byte) ----------
@@ -165,6 +168,11 @@ func opInvCompact(args []string) string {
 // ops: comma separated; "c" = nvram-compact, "a" = Assemble (what save does),
 // "i<hex name>" = invalidate_nvar with that exact name; "-" = none
 func runSeq(s *uefi.NVarStore, ops string) error {
+	return runSeqOn(s, ops, func(name string) func(f uefi.Firmware) bool { return namePred(name) })
+}
+
+// the same on any node (the image root), with the predicate of an invalidate step made by mk
+func runSeqOn(s uefi.Firmware, ops string, mk func(name string) func(f uefi.Firmware) bool) error {
 	if ops == "-" || ops == "" {
 		return nil
 	}
@@ -176,7 +184,7 @@ func runSeq(s *uefi.NVarStore, ops string) error {
 		case t == "a":
 			err = (&visitors.Assemble{}).Run(s)
 		case strings.HasPrefix(t, "i"):
-			err = (&visitors.NVarInvalidate{Predicate: namePred(string(UnH(t[1:])))}).Run(s)
+			err = (&visitors.NVarInvalidate{Predicate: mk(string(UnH(t[1:])))}).Run(s)
 		default:
 			panic("bad op " + t)
 		}
@@ -246,7 +254,14 @@ func checkCompacted(pol uint64, s *uefi.NVarStore, origLen int, want []liveVar) 
 	if len(s.Buf()) != origLen || s.Length != uint64(origLen) {
 		return "FAIL length-changed"
 	}
-	out := append([]byte{}, s.Buf()...)
+	return checkCompactedBytes(pol, append([]byte{}, s.Buf()...), origLen, want)
+}
+
+// the same on the bytes of a compacted store (as found in a saved image)
+func checkCompactedBytes(pol uint64, out []byte, origLen int, want []liveVar) string {
+	if len(out) != origLen {
+		return "FAIL length-changed"
+	}
 	r, err := parse(pol, out)
 	if err != nil {
 		return "FAIL reparse-error " + err.Error()
@@ -342,33 +357,197 @@ func pInvCompact(args []string) string {
 	return checkCompacted(pol, s, len(b), want)
 }
 
-// A command line of invalidate/compact/assemble steps on one parsed tree, then
-// save.  What the saved bytes must hold: invalidation marks variables, the next
-// compaction sweeps them; steps after the last compaction do not reach the bytes.
-func pSeq(args []string) string {
-	pol, ops, b := UnN(args[0]), args[1], UnH(args[2])
-	cur := argsLive(args[3:])
-	orig := append([]byte{}, b...)
-	var saved []liveVar
-	compacted := false
+// invalidate_nvar as the command line builds it: the predicate comes from
+// visitors.FindNVarPredicate, given the name as a literal (metacharacters quoted).  It must select
+// the entries carrying exactly that name (DESIGN 5.0), so the outcome is the one of p_invcompact.
+func cliPred(name string) (func(f uefi.Firmware) bool, string) {
+	if !utf8.ValidString(name) || strings.ContainsRune(name, utf8.RuneError) {
+		return nil, "skip" // not expressible as a pattern: a pattern is UTF-8 text
+	}
+	pred, err := visitors.FindNVarPredicate(regexp.QuoteMeta(name))
+	if err != nil {
+		return nil, "FAIL predicate-error " + err.Error()
+	}
+	return pred, ""
+}
+
+func pInvCli(args []string) string {
+	pol, name, b := UnN(args[0]), string(UnH(args[1])), UnH(args[2])
+	all := argsLive(args[3:])
+	pred, why := cliPred(name)
+	if pred == nil {
+		return why
+	}
+	var want []liveVar
+	for _, v := range all {
+		if string(v.name) != name {
+			want = append(want, v)
+		}
+	}
+	s, err := parse(pol, b)
+	if err != nil {
+		return "FAIL parse-error " + err.Error()
+	}
+	if err := (&visitors.NVarInvalidate{Predicate: pred}).Run(s); err != nil {
+		return "FAIL invalidate-error " + err.Error()
+	}
+	if err := (&visitors.NVRamCompact{}).Run(s); err != nil {
+		return "FAIL compact-error " + err.Error()
+	}
+	return checkCompacted(pol, s, len(b), want)
+}
+
+// ---------- the store where the tool finds it: a raw file with the NVAR GUID in a volume ----------
+
+var fillerGUID = [16]byte{0x10, 0x32, 0x54, 0x76, 0x98, 0xBA, 0xDC, 0xFE, 1, 2, 3, 4, 5, 6, 7, 8}
+
+// wrapStore builds a one-volume image around the store.  lay: bit 0 = an ordinary raw file before the
+// store file, bit 1 = one after it, bits 2-3 = free space of the volume.
+func wrapStore(pol uint64, lay uint64, store []byte) []byte {
+	attrs, state := uint32(0x4FEFF), byte(0xF8)
+	if pol == 0 {
+		attrs, state = 0x4F6FF, 0x07
+	}
+	nf := &uefigen.File{Type: 1, State: state, Body: store}
+	copy(nf.GUID[:], uefi.NVAR[:])
+	filler := func(n int) *uefigen.File {
+		body := make([]byte, n)
+		for i := range body {
+			body[i] = byte(0x40 + i%23)
+		}
+		copy(body, "NVAR") // a raw file that is not a store file, whatever it starts with
+		return &uefigen.File{GUID: fillerGUID, Type: 1, State: state, Body: body}
+	}
+	v := &uefigen.Vol{FSGUID: uefigen.FFS2, Attrs: attrs, Revision: 2, BlockSize: 64,
+		FreeSpace: []int{0, 8, 40, 100}[(lay>>2)&3]}
+	if lay&1 != 0 {
+		v.Files = append(v.Files, filler(13))
+	}
+	v.Files = append(v.Files, nf)
+	if lay&2 != 0 {
+		v.Files = append(v.Files, filler(30))
+	}
+	img, _ := uefigen.EmitRegion(&uefigen.Region{Elems: []uefigen.Elem{{Vol: v}}})
+	return img
+}
+
+// the one file with the NVAR GUID below root
+func storeFile(root uefi.Firmware) (*uefi.File, string) {
+	find := visitors.Find{Predicate: visitors.FindFileGUIDPredicate(*uefi.NVAR)}
+	if err := find.Run(root); err != nil {
+		return nil, "FAIL find-error " + err.Error()
+	}
+	if len(find.Matches) != 1 {
+		return nil, fmt.Sprintf("FAIL store-file-count %d", len(find.Matches))
+	}
+	f, ok := find.Matches[0].(*uefi.File)
+	if !ok {
+		return nil, "FAIL store-file-not-a-file"
+	}
+	return f, ""
+}
+
+// p_file pol lay ops store live...: the statement observed at "a RAW file with the NVAR GUID inside
+// a volume": parsing the image yields the store; a command line of invalidate_nvar / nvram-compact /
+// Assemble steps followed by save, all run on the image ROOT, leaves an image of the same size whose
+// store file holds the store compacted at the last nvram-compact (the unchanged store when there was
+// none).  ops as for seq; the predicate of an invalidate step is the command line's (cliPred).
+func pFile(args []string) string {
+	pol, lay, ops, b := UnN(args[0]), UnN(args[1]), args[2], UnH(args[3])
+	if len(b) == 0 || pol != 0xFF {
+		return "skip" // an empty file body holds no store; volumes: see the generator
+	}
 	if ops != "-" {
 		for _, t := range strings.Split(ops, ",") {
-			switch {
-			case t == "c":
-				saved = append([]liveVar{}, cur...)
-				compacted = true
-			case strings.HasPrefix(t, "i"):
-				name := string(UnH(t[1:]))
-				var keep []liveVar
-				for _, v := range cur {
-					if string(v.name) != name {
-						keep = append(keep, v)
-					}
+			if strings.HasPrefix(t, "i") {
+				if pred, why := cliPred(string(UnH(t[1:]))); pred == nil {
+					return why
 				}
-				cur = keep
 			}
 		}
 	}
+	want, compacted := seqExpect(ops, argsLive(args[4:]))
+	img := wrapStore(pol, lay, b)
+	orig := append([]byte{}, img...)
+	uefiops.Reset()
+	root, err := uefi.Parse(img)
+	if err != nil {
+		return "FAIL image-not-parsed " + err.Error()
+	}
+	f, why := storeFile(root)
+	if f == nil {
+		return why
+	}
+	if f.NVarStore == nil {
+		return "FAIL store-not-parsed"
+	}
+	if !bytes.Equal(f.NVarStore.Buf(), b) {
+		return "FAIL parsed-store-bytes-differ"
+	}
+	mk := func(name string) func(f uefi.Firmware) bool { pred, _ := cliPred(name); return pred }
+	if err := runSeqOn(root, ops, mk); err != nil {
+		return "FAIL step-error " + err.Error()
+	}
+	if err := (&visitors.Assemble{}).Run(root); err != nil { // save
+		return "FAIL save-error " + err.Error()
+	}
+	saved := append([]byte{}, root.Buf()...)
+	if len(saved) != len(orig) {
+		return "FAIL image-length-changed"
+	}
+	uefiops.Reset()
+	root2, err := uefi.Parse(saved)
+	if err != nil {
+		return "FAIL saved-image-not-parsed " + err.Error()
+	}
+	f2, why := storeFile(root2)
+	if f2 == nil {
+		return why
+	}
+	if f2.NVarStore == nil {
+		return "FAIL saved-store-not-parsed"
+	}
+	out := append([]byte{}, f2.NVarStore.Buf()...)
+	if !compacted {
+		if !bytes.Equal(out, b) {
+			return "FAIL store-bytes-differ-without-compaction"
+		}
+		return "ok"
+	}
+	return checkCompactedBytes(pol, out, len(b), want)
+}
+
+// A command line of invalidate/compact/assemble steps on one parsed tree, then
+// save.  What the saved bytes must hold: invalidation marks variables, the next
+// compaction sweeps them; steps after the last compaction do not reach the bytes.
+// what a command line leaves in the saved bytes: the live set at the last compaction
+func seqExpect(ops string, cur []liveVar) (saved []liveVar, compacted bool) {
+	if ops == "-" || ops == "" {
+		return nil, false
+	}
+	for _, t := range strings.Split(ops, ",") {
+		switch {
+		case t == "c":
+			saved = append([]liveVar{}, cur...)
+			compacted = true
+		case strings.HasPrefix(t, "i"):
+			name := string(UnH(t[1:]))
+			var keep []liveVar
+			for _, v := range cur {
+				if string(v.name) != name {
+					keep = append(keep, v)
+				}
+			}
+			cur = keep
+		}
+	}
+	return saved, compacted
+}
+
+func pSeq(args []string) string {
+	pol, ops, b := UnN(args[0]), args[1], UnH(args[2])
+	orig := append([]byte{}, b...)
+	saved, compacted := seqExpect(ops, argsLive(args[3:]))
 	s, err := parse(pol, b)
 	if err != nil {
 		return "FAIL parse-error " + err.Error()
@@ -390,6 +569,65 @@ func pSeq(args []string) string {
 
 // ---------- generator ----------
 
+// nearMiss derives a name that is NOT the given one but close to it: a proper prefix or suffix, an
+// extension at either end, another letter case, one character replaced by '.'.  Invalidating it must
+// leave the variable alone (names are compared as a whole and case matters).
+func nearMiss(r *Rng, name []byte) []byte {
+	n := append([]byte{}, name...)
+	rs := []rune(string(n))
+	valid := utf8.Valid(n)
+	switch r.Intn(6) {
+	case 0: // proper prefix
+		if valid && len(rs) > 0 {
+			return []byte(string(rs[:len(rs)-1]))
+		}
+	case 1: // proper suffix
+		if valid && len(rs) > 0 {
+			return []byte(string(rs[1:]))
+		}
+	case 2:
+		return append(n, 'x')
+	case 3:
+		return append([]byte{'x'}, n...)
+	case 4: // other letter case
+		ch := false
+		for i, c := range n {
+			if c >= 'a' && c <= 'z' {
+				n[i] = c - 32
+				ch = true
+			} else if c >= 'A' && c <= 'Z' {
+				n[i] = c + 32
+				ch = true
+			}
+		}
+		if ch {
+			return n
+		}
+	case 5:
+		if valid && len(rs) > 0 {
+			k := r.Intn(len(rs))
+			if rs[k] != '.' {
+				rs[k] = '.'
+				return []byte(string(rs))
+			}
+		}
+	}
+	return append(n, 'y')
+}
+
+// invName picks the name an invalidate step is given: mostly the name of a live variable, sometimes
+// a near miss of one, sometimes a name from the pool.
+func invName(r *Rng, live []liveVar, pLive, qLive int) []byte {
+	nm := []byte(namePool[r.Intn(len(namePool))])
+	if len(live) > 0 && r.Chance(pLive, qLive) {
+		nm = live[r.Intn(len(live))].name
+		if r.Chance(1, 4) {
+			nm = nearMiss(r, nm)
+		}
+	}
+	return nm
+}
+
 func genOps(r *Rng, live []liveVar, maxLen int) string {
 	n := r.Range(1, maxLen)
 	var ts []string
@@ -398,10 +636,7 @@ func genOps(r *Rng, live []liveVar, maxLen int) string {
 		case 0, 1:
 			ts = append(ts, "c")
 		case 2, 3:
-			nm := []byte(namePool[r.Intn(len(namePool))])
-			if len(live) > 0 && r.Chance(3, 4) {
-				nm = live[r.Intn(len(live))].name
-			}
+			nm := invName(r, live, 3, 4)
 			t := "i"
 			if len(nm) > 0 {
 				t += H(nm)
@@ -506,6 +741,9 @@ func genName(r *Rng, ascii bool) (raw, utf []byte) {
 
 func genData(r *Rng, attrs byte) []byte {
 	d := r.Bytes(r.Pick(0, 1, 3, 8, 17, 40))
+	if r.Chance(1, 40) { // the high byte of Size (and of the link distances behind it) in use
+		d = r.Bytes(r.Pick(236, 246, 300, 520))
+	}
 	if attrs&0x10 != 0 {
 		// extended header: attrs [timestamp [hash]] [checksum] size
 		xa := byte(r.Pick(0, 1, 1, 0x10, 0x21, 0xCE))
@@ -579,7 +817,10 @@ func (s *gStore) live() []liveVar {
 
 // genStore builds a store that is well formed in the sense of wf_store:
 // chains laid out front to back, every table GUID referenced, sizes < 2^16.
-func genStore(r *Rng) *gStore {
+func genStore(r *Rng) *gStore { return genStoreD(r, true) }
+
+// dead: also lay out deleted chains (see below)
+func genStoreD(r *Rng, dead bool) *gStore {
 	s := &gStore{pol: 0xFF}
 	if r.Chance(1, 5) {
 		s.pol = 0
@@ -622,11 +863,47 @@ func genStore(r *Rng) *gStore {
 		k := r.Pick(0, 0, 1, 1, 2, 3)
 		for j := 0; j < k; j++ {
 			da := byte(0x88) | (e.attrs & 0x50) | byte(r.Pick(0, 1, 0x20))
+			if r.Chance(1, 5) { // name/GUID bits on a data-only entry mean nothing
+				da |= byte(r.Pick(0x02, 0x04, 0x06))
+			}
 			d := &gEntry{attrs: da, vr: v, gidx: -1, guid: e.guid, name: e.name, nextTo: -1}
 			d.data = genData(r, da)
 			c.es = append(c.es, d)
 		}
 		c.es[len(c.es)-1].last = true
+		chains = append(chains, c)
+	}
+	// deleted variables whose later versions are still in the store: the head is not a valid entry
+	// (valid bit clear / a data-only entry nobody links to / a broken extended header) but keeps its
+	// next pointer, and the data-only entries behind it are intact.  None of them is live: a link only
+	// counts when it comes from a valid entry.
+	nd := r.Pick(0, 0, 0, 1, 1, 2)
+	if !dead {
+		nd = 0
+	}
+	for v := 0; v < nd; v++ {
+		var h *gEntry
+		switch r.Intn(3) {
+		case 0: // valid bit clear
+			h = &gEntry{attrs: byte(r.Pick(0x04, 0x06, 0x05, 0x14, 0x46)), vr: -1, gidx: -1, nextTo: -1, guid: r.Bytes(16)}
+			h.raw, h.name = genName(r, h.attrs&2 != 0)
+			h.data = r.Bytes(r.Intn(20))
+		case 1: // data-only, nobody links to it
+			h = &gEntry{attrs: 0x88 | byte(r.Pick(0, 1, 0x20)), vr: -1, gidx: -1, nextTo: -1}
+			h.data = genData(r, h.attrs)
+		default: // extended header larger than the body
+			h = &gEntry{attrs: 0x96, vr: -1, gidx: -1, nextTo: -1, guid: r.Bytes(16)}
+			h.raw, h.name = genName(r, true)
+			h.data = []byte{1, 0xFF, 0x7F}
+		}
+		c := &chain{es: []*gEntry{h}}
+		k := r.Pick(1, 1, 2)
+		for j := 0; j < k; j++ {
+			da := byte(0x88) | byte(r.Pick(0, 0, 1, 0x20, 0x10, 0x50))
+			d := &gEntry{attrs: da, vr: -1, gidx: -1, nextTo: -1}
+			d.data = genData(r, da)
+			c.es = append(c.es, d)
+		}
 		chains = append(chains, c)
 	}
 	// the table must be discovered completely: the highest index is referenced
@@ -667,6 +944,12 @@ func genStore(r *Rng) *gStore {
 			s.entries = append(s.entries, e)
 		case 2: // extended header larger than the body
 			e := &gEntry{attrs: 0x96, vr: -1, gidx: -1, nextTo: -1, guid: r.Bytes(16)}
+			if r.Chance(1, 2) {
+				// ... with a GUID index: the entry is not valid, so the index counts for nothing
+				// (it may lie beyond the table) and must not make the parser look for more GUIDs
+				e.attrs = 0x92
+				e.gidx = r.Pick(0, len(s.table), len(s.table)+1, len(s.table)+3, 200, 254, 255)
+			}
 			e.raw, e.name = genName(r, true)
 			e.data = []byte{1, 0xFF, 0x7F}
 			s.entries = append(s.entries, e)
@@ -852,7 +1135,7 @@ func mutate(r *Rng, s *gStore) (byte, []byte) {
 
 // a store whose variable contents are themselves stores
 func genNested(r *Rng, depth int, hostile bool, pol int) *gStore {
-	s := genStore(r)
+	s := genStoreD(r, depth == 2) // inner stores without deleted chains: keeps the nesting small
 	if pol >= 0 {
 		s.pol = byte(pol)
 	}
@@ -904,11 +1187,17 @@ func gen(r *Rng, tier string, emit Emit) {
 		live := s.live()
 		emit("P", "p_roundtrip", pol, H(b))
 		emit("P", "p_compact", append([]string{pol, H(b)}, liveArgs(live)...)...)
-		nm := []byte(namePool[rr.Intn(len(namePool))])
-		if len(live) > 0 && rr.Chance(2, 3) {
-			nm = live[rr.Intn(len(live))].name
-		}
+		nm := invName(rr, live, 2, 3)
 		emit("P", "p_invcompact", append([]string{pol, H(nm), H(b)}, liveArgs(live)...)...)
+		emit("P", "p_invcli", append([]string{pol, H(nm), H(b)}, liveArgs(live)...)...)
+		// the same store inside a raw file with the NVAR GUID in a firmware volume, worked on through
+		// the image root as the command line does: compact, and invalidate + compact
+		// (erase polarity 0xFF only: the volume parser recognises free space by 0xFF bytes)
+		if lay := N(uint64(rr.Intn(16))); s.pol == 0xFF {
+			for _, ops := range []string{"c", "i" + hexOrEmpty(nm) + ",c", genOps(rr, live, 4)} {
+				emit("P", "p_file", append([]string{pol, lay, ops, H(b)}, liveArgs(live)...)...)
+			}
+		}
 		emit("C", "parse", pol, H(b))
 		emit("C", "assemble", pol, H(b))
 		emit("C", "compact", pol, H(b))
@@ -983,5 +1272,7 @@ func main() {
 	Register("p_roundtrip", pRoundTrip)
 	Register("p_compact", pCompact)
 	Register("p_invcompact", pInvCompact)
+	Register("p_invcli", pInvCli)
+	Register("p_file", pFile)
 	Main(gen)
 }
